@@ -133,6 +133,8 @@ class Skeleton:
     def stmts(self, ss, env, ind):
         pad = "  " * ind
         if not ss:
+            if "void" in self.rets:
+                return [pad + self.result(self.rets["void"], env)]         # a void function ends
             raise PipelineError("%s: control reaches the end of the function without a return" % self.name)
         s, rest = ss[0], list(ss[1:])
         if s[0] == "block" and not self.is_effect(s):
@@ -148,6 +150,14 @@ class Skeleton:
             env = dict(env)
             env["a:" + atom] = self.node_term[id(s)]
             return self.stmts(rest, env, ind)
+        if s[0] == "loopmacro":
+            # a loop whose body only moves data, listed as one effect: `json_array_foreach(a, i, x) <body>`
+            body = s[3][1] if s[3][0] == "block" else [s[3]]
+            t = "%s(%s) %s" % (s[1], ", ".join(cmini.show(a) for a in s[2]), "; ".join(cmini.show(b[1]) if b[0] == "expr" else b[0] for b in body))
+            if t in self.flag_effects:
+                self.seen_effects.add(t)
+                return self.stmts(rest, self.flag_set(env, self.flag_effects[t]), ind)
+            raise PipelineError("%s: loop `%s` is not a known data movement" % (self.name, t))
         if s[0] == "expr" and cmini.show(s[1]) in self.flag_effects:
             self.seen_effects.add(cmini.show(s[1]))
             return self.stmts(rest, self.flag_set(env, self.flag_effects[cmini.show(s[1])]), ind)
@@ -174,7 +184,7 @@ class Skeleton:
             obj = cmini.show(args[0])
             msg = args[1][1] if args[1][0] == "str" else "?"
             self.messages.append((obj, msg))
-            flag = "w" if len(self.flags) == 1 or obj == "__cmd" else "wj"
+            flag = "w" if (len(self.flags) == 1 or obj == "__cmd" or "wj" not in self.flags) else "wj"
             if flag not in self.flags:
                 raise PipelineError("%s: message written to %s" % (self.name, obj))
             return self.stmts(rest, self.flag_set(env, flag), ind)
@@ -442,6 +452,23 @@ def generate(repo):
                             ("ktyIsOKP", "Bool"), ("ktyIsOct", "Bool")],
          "jwks.c `jwk_process_one`: the result says which importer the item went through before `jwk_process_values` -- 1 `process_ec`, 2 `process_rsa`, "
          "3 `process_eddsa`, 4 `process_octet`, 0 none (the item is returned flagged), 9 = NULL (allocation); `ktyIsEC` = `jwt_strcmp(kty, \"EC\")` is 0, …")
+    # ---- jwk_process_values: alg, use, key_ops, kid of every key type ----
+    sk = Skeleton("jwk_process_values", find_body(jwks, r"static\s+void\s+jwk_process_values\s*\(", "jwk_process_values"),
+                  atoms={"j_alg": ("algAbsent", "ptr"), "json_is_string(j_alg)": ("algIsString", "bool"), "j_use": ("useAbsent", "ptr"),
+                         "json_is_string(j_use)": ("useIsString", "bool"), 'jwt_strcmp(use, "sig")': ("useIsSig", "ptr"), 'jwt_strcmp(use, "enc")': ("useIsEnc", "ptr"),
+                         "j_ops_a": ("opsAbsent", "ptr"), "json_is_array(j_ops_a)": ("opsIsArray", "bool"), "j_kid": ("kidAbsent", "ptr"),
+                         "json_is_string(j_kid)": ("kidIsString", "bool"), "len": ("kidEmpty", "ptr"), "item->kid": ("kidAllocNull", "ptr")},
+                  effects={"decl j_use", "decl j_ops_a", "decl j_kid", "decl j_alg", 'j_alg = json_object_get(jwk, "alg")', 'j_use = json_object_get(jwk, "use")',
+                           "decl use = json_string_value(j_use)", 'j_ops_a = json_object_get(jwk, "key_ops")', "decl j_op", "decl i",
+                           'j_kid = json_object_get(jwk, "kid")', "decl kid = json_string_value(j_kid)", "decl len = strlen(kid)", "item->kid = jwt_malloc((len + 1))"},
+                  flag_effects={"item->alg = jwt_str_alg(json_string_value(j_alg))": "algStored", "item->use = JWK_PUB_KEY_USE_SIG": "useSig",
+                                "item->use = JWK_PUB_KEY_USE_ENC": "useEnc", "json_array_foreach(j_ops_a, i, j_op) item->key_ops |= jwk_key_op_j(j_op)": "opsRead",
+                                "strcpy(item->kid, kid)": "kidStored"},
+                  rets={"void": "0"}, flags=("w", "algStored", "useSig", "useEnc", "opsRead", "kidStored"))
+    emit(sk, "processValues", [("algAbsent", "Bool"), ("algIsString", "Bool"), ("useAbsent", "Bool"), ("useIsString", "Bool"), ("useIsSig", "Bool"), ("useIsEnc", "Bool"),
+                               ("opsAbsent", "Bool"), ("opsIsArray", "Bool"), ("kidAbsent", "Bool"), ("kidIsString", "Bool"), ("kidEmpty", "Bool"), ("kidAllocNull", "Bool")],
+         "jwks.c `jwk_process_values`: what is stored of alg / use / key_ops / kid (flags), and whether the item was flagged (`w`: an `alg` that is not a string ends "
+         "the function before use, key_ops and kid are looked at)")
     # ================= the typed map (jwt-setget.c) =================
     sg = strip_c(open(os.path.join(repo, "libjwt/jwt-setget.c")).read())
     hdr = strip_c(open(os.path.join(repo, "include/jwt.h")).read())
